@@ -36,7 +36,9 @@ TYPE_POOL = [0, 1, 2, 3, 4, 5, 6, 7, 11, 255] + [t for t in MAG_TYPES if t not i
 CORNERS_QUICK = [0.0, -0.0, 1e-5, -1e-5, 0.00005, -0.00005, 0.00015, 123456.789, -123456.789, 1.0, -2.5, 0.12345, 9999.99995, 16777216.0, 0.99996] + MAG_COORDS + MAG_RADII
 CORNERS_THOROUGH = CORNERS_QUICK + [1e30, -1e30, 3.4028234e38, 1e-30, 33554432.5, 0.30000001]
 SOURCE_OPTS = [False, True, "custom.swc"]
-HEADER_LIKE = "a-comment-that-starts-like-the-column-header-comes-back"  # known finding, reported under its own clause (see _charge_comments)
+# comments that start like the writer's column header (plain, with extra columns, with a suffix, with leading blanks, upper case = not header-like for the reader)
+HEADER_LIKES = [HEADER_COLS, HEADER_COLS + " e f", HEADER_COLS + "x and more", "  " + HEADER_COLS, HEADER_COLS + " "]
+HEADER_LIKE = "a-comment-that-starts-like-the-column-header-comes-back"  # own clause of the comment part (a defect repaired in parse_swc, see known_findings.jsonl `fixed:`)
 
 
 # ---------------------------------------------------------------- reporting
@@ -261,14 +263,13 @@ def check_roundtrip(rep, spec, base):
 
 
 def _charge_comments(rep, carrier, spec, got_c, want_c):
-    """the comment clause of the property: the comments read back are exactly `want_c`, in order.  When the ONLY difference is that comments
-    starting like the writer's column header are missing, the failure is charged to the clause HEADER_LIKE (one defect, one clause), so
-    that every other comment failure keeps its own name."""
+    """the comment clause of the property: the comments read back are exactly `want_c`, in order.  The comments that start like the writer's
+    column header have a clause of their own on top of the general ones (they come back, as often and in the order they were written: only the
+    ONE header line the writer itself puts in front of the rows is not a comment of the file)."""
     if got_c == want_c:
         return
-    if got_c == [c for c in want_c if not c.startswith(HEADER_COLS)] and text_is_header_like(want_c):
+    if not _is_subsequence(header_like_of(want_c), header_like_of(got_c)):  # one of them did not come back
         rep.add("parse_swc", HEADER_LIKE, spec, got_c, want_c)
-        return
     if not _is_subsequence(want_c, got_c):
         rep.add(carrier, "comments-in-order", spec, got_c, want_c)
     extra_c = _multiset_extra(got_c, want_c)
@@ -278,8 +279,8 @@ def _charge_comments(rep, carrier, spec, got_c, want_c):
         rep.add(carrier, "comments-in-order", spec, got_c, want_c)  # same multiset, another order
 
 
-def text_is_header_like(comments):
-    return any(c.startswith(HEADER_COLS) for c in comments)
+def header_like_of(comments):
+    return [c for c in comments if c.startswith(HEADER_COLS)]
 
 
 # ---------------------------------------------------------------- histories: write, read, write again, read
@@ -341,11 +342,9 @@ def check_history(rep, spec, base):
                 break
         got_c = [c.lstrip() for c in t2.comments]
         if got_c != want_c:
-            if got_c == [c for c in want_c if not c.startswith(HEADER_COLS)]:
+            if not _is_subsequence(header_like_of(want_c), header_like_of(got_c)):  # one of them did not come back
                 rep.add("parse_swc", HEADER_LIKE, spec, got_c, want_c)
-                # the defect is known; continue the history with the tree as read
-            else:
-                rep.add("Tree.from_swc", f"history/{gen}/comments-are-the-source-header-of-this-export-then-every-comment-the-written-tree-carried", spec, got_c, want_c)
+            rep.add("Tree.from_swc", f"history/{gen}/comments-are-the-source-header-of-this-export-then-every-comment-the-written-tree-carried", spec, got_c, want_c)
         t = t2
 
 
@@ -442,9 +441,31 @@ def run(ctx):
                 go("writer-like-comments", spec)
                 k += 1
 
+        # (3d) comments that start like the writer's column header in EVERY position of the comment list: first, in the middle, last (= right in
+        # front of the writer's own header line), repeated, next to each other, alone; plain / with extra columns / with a suffix / indented;
+        # every source-header setting, comments switched off as well (then nothing comes back but the header is still dropped once)
+        plain = ["x", ""]
+        hl = []
+        for L in (1, 2, 3):
+            for cl in itertools.product(HEADER_LIKES[:3] + plain, repeat=L):
+                if any(c.startswith(HEADER_COLS) for c in cl):
+                    hl.append(cl)
+        hl += [(h,) for h in HEADER_LIKES[3:]] + [(HEADER_LIKES[3], "x", HEADER_LIKES[4]), (HEADER_COLS,) * 4, ("x", "y", "z", HEADER_COLS), (HEADER_COLS, "x", "y", "z")]
+        for j, cl in enumerate(hl):
+            if not thorough and len(cl) == 3 and j % 2 and len(set(cl)) == 3:
+                continue
+            for source in SOURCE_OPTS if (thorough or len(cl) < 3) else (SOURCE_OPTS[j % 3],):
+                pid = small[k % 2]
+                n = len(pid)
+                xyz, r = _coords_for(n, k, [1.0, 2.5])
+                spec = dict(pid=list(pid), type=_types_for(n, k), xyz=xyz, r=r, off=OFFSETS[k % 5], via=WRITE_VIA[k % 2], src=READ_SRC[(k // 2) % 3],
+                            source=source, comments=list(cl), comments_flag=(k % 11 != 0), tree_source=("" if k % 3 else "orig.swc"))
+                go("header-like-comments", spec)
+                k += 1
+
         # (3c) histories: write -> read -> write again -> read [-> a third time], every source option at every generation, offsets / write
         # routes / read sources rotating; the starting comments range over nothing, plain, and writer-like texts
-        starts = [[], ["x", "  y "], ["source: x"], [HEADER_COLS], ["", "# x", " source: /data/n 1.swc"]] + ([[c] for c in WRITER_LIKE] if thorough else [["#"], ["x # y", "\tx\t"]])
+        starts = [[], ["x", "  y "], ["source: x"], [HEADER_COLS], [HEADER_COLS, "x", HEADER_COLS + " e"], ["x", HEADER_COLS], ["", "# x", " source: /data/n 1.swc"]] + ([[c] for c in WRITER_LIKE] if thorough else [["#"], ["x # y", "\tx\t"]])
         for cm in starts:
             for s1 in SOURCE_OPTS:
                 for s2 in SOURCE_OPTS:
@@ -533,7 +554,8 @@ def run(ctx):
                  f"source header False/True/custom, comments from {COMMENT_POOL!r}, types from {TYPE_POOL}); magnitudes: every type of {MAG_TYPES} on root / inner node / leaf x read "
                  f"sources and id offsets {MAG_IDS} x write routes x read sources, coordinates {MAG_COORDS}, radii {MAG_RADII}; all unsorted numberings with root 0 up to "
                  f"{5 if thorough else 4} nodes; all comment lists of length <= {3 if thorough else 2} x 3 source-header settings; comments that look like the "
-                 f"writer's own output {WRITER_LIKE!r} alone and in pairs x 3 source-header settings; HISTORIES write -> read -> write again -> read with every "
+                 f"writer's own output {WRITER_LIKE!r} alone and in pairs x 3 source-header settings; comments that start like the column header {HEADER_LIKES!r} in every "
+                 f"position of lists of <= 3 (first, middle, last, repeated, adjacent) mixed with plain ones; HISTORIES write -> read -> write again -> read with every "
                  f"source option at both generations (a third generation in the thorough tier) from plain and writer-like starting comments; every float corner value "
                  f"{corners} in each of x/y/z/r x 3 read sources; seeded random tail (trees up to {12 if thorough else 9} nodes, magnitudes 1e-4..1e6). "
                  "Oracle: float32(float(format(v,'.4f'))), the parent table, the type list, [source header] + lstripped comments. Every case is non-trivial "
